@@ -34,6 +34,13 @@ type RtRefreshManager struct {
 	ctx      context.Context
 	cancel   context.CancelFunc
 	refcount sync.WaitGroup
+	// refcountLk protects refcount.Add() from racing with Close(): a goroutine
+	// is only registered under the read lock while closed is unset, and Close
+	// sets closed under the write lock before it waits. Without it a Refresh
+	// (or Start) racing Close can call Add while Wait is returning, which
+	// panics ("WaitGroup is reused before previous Wait has returned").
+	refcountLk sync.RWMutex
+	closed     bool
 
 	// peerId of this DHT peer i.e. self peerId.
 	h         host.Host
@@ -90,13 +97,28 @@ func NewRtRefreshManager(h host.Host, rt *kbucket.RoutingTable, autoRefresh bool
 	}, nil
 }
 
+// Start launches the refresh loop. It is a no-op once Close has been called.
 func (r *RtRefreshManager) Start() {
+	r.refcountLk.RLock()
+	if r.closed {
+		r.refcountLk.RUnlock()
+		return
+	}
 	r.refcount.Add(1)
+	r.refcountLk.RUnlock()
+
 	go r.loop()
 }
 
+// Close stops the manager and blocks until all its goroutines have exited.
+// It is idempotent and safe to call concurrently with Start and Refresh.
 func (r *RtRefreshManager) Close() error {
 	r.cancel()
+	// Acquire the write lock to prevent new refcount.Add() calls during shutdown
+	r.refcountLk.Lock()
+	r.closed = true
+	r.refcountLk.Unlock()
+
 	r.refcount.Wait()
 	return nil
 }
@@ -108,14 +130,27 @@ func (r *RtRefreshManager) Close() error {
 // error and close. The channel is buffered and safe to ignore.
 func (r *RtRefreshManager) Refresh(force bool) <-chan error {
 	resp := make(chan error, 1)
-	r.refcount.Go(func() {
+
+	r.refcountLk.RLock()
+	if r.closed {
+		r.refcountLk.RUnlock()
+		// Close cancelled r.ctx before it set closed.
+		resp <- r.ctx.Err()
+		close(resp)
+		return resp
+	}
+	r.refcount.Add(1)
+	r.refcountLk.RUnlock()
+
+	go func() {
+		defer r.refcount.Done()
 		select {
 		case r.triggerRefresh <- &triggerRefreshReq{respCh: resp, forceCplRefresh: force}:
 		case <-r.ctx.Done():
 			resp <- r.ctx.Err()
 			close(resp)
 		}
-	})
+	}()
 
 	return resp
 }
